@@ -65,7 +65,7 @@ class Namer:
     def __init__(self, rng: random.Random) -> None:
         self.rng = rng
 
-    def type_name(self, taken: Set[str]) -> str:
+    def type_name(self, taken: Set[str], avoid: Set[str] = frozenset()) -> str:
         r = self.rng
         for _ in range(200):
             k = r.random()
@@ -75,7 +75,7 @@ class Namer:
                 n = r.choice(ACRONYMS) + r.choice(WORDS)
             else:
                 n = "".join(r.choice(WORDS) for _ in range(r.choice([1, 1, 2, 2, 3])))
-            if n not in taken:
+            if n not in taken and n not in avoid:
                 taken.add(n)
                 return n
         raise RuntimeError("name pool exhausted")
@@ -102,7 +102,9 @@ def rename(rng: random.Random, main: G.Schema) -> bool:
         top: Set[str] = set()
         renamed: Dict[str, str] = {}
 
-        def walk(d: Any, taken: Set[str]) -> bool:
+        def walk(d: Any, taken: Set[str], outer: Set[str] = frozenset()) -> bool:
+            """`outer`: names declared EARLIER in the enclosing scopes — a nested definition must not shadow them
+            (references are by object; the printed simple name would then resolve to the nested definition)"""
             if isinstance(d, G.ConstDef):
                 base = "_".join(w.upper() for w in rng.sample(["max", "min", "size", "len", "cap", "rate", "ver", "mark"], 2))
                 while base in taken:
@@ -111,14 +113,14 @@ def rename(rng: random.Random, main: G.Schema) -> bool:
                 renamed[d.name] = base
                 d.name = base
                 return True
-            d.name = nm.type_name(taken)
+            d.name = nm.type_name(taken, outer)
             if isinstance(d, G.EnumDef):
                 up = upper_snake(d.name)
                 d.members = [(f"{up}_{w}", v) for (w, (_, v)) in zip(["UNKNOWN", "RED", "GREEN", "BLUE", "ALPHA", "BETA", "GAMMA"], d.members)]
             if isinstance(d, G.MsgDef):
                 inner: Set[str] = set()
                 for n in d.nested:
-                    if not walk(n, inner):
+                    if not walk(n, inner, set(outer) | set(taken)):
                         return False
                 ft: Set[str] = set()
                 for f in d.fields:
@@ -577,7 +579,7 @@ def make_program(rng: random.Random, allow_ext: bool) -> Optional[G.Schema]:
 
 
 def check(run: common.Run, drv: common.Driver, rng: random.Random, tier: str) -> None:
-    n = {"quick": 90, "thorough": 2500}[tier]
+    n = {"quick": 90, "thorough": 1100}[tier]
     so_budget = {"quick": 6, "thorough": 80}[tier]
     cli_budget = {"quick": 6, "thorough": 60}[tier]
     tie_converters(run, drv, rng, 300 if tier == "quick" else 5000)
